@@ -62,6 +62,8 @@ type Opts struct {
 	// to the model through gonuts' own CLN adapter and a fake CLN REST node (package clnfake);
 	// "lnd" = through gonuts' LND adapter and a fake lnd gRPC server (package lndfake)
 	Backend string
+	// LndNoRouteEvery > 0 (Backend "lnd"): every n-th route query that names a fee limit finds no route
+	LndNoRouteEvery int64
 }
 
 type Env struct {
@@ -137,6 +139,7 @@ func (e *Env) load(rotate bool, fee uint) error {
 			}
 		}
 		e.LND = f
+		f.NoRouteEvery = e.Opts.LndNoRouteEvery
 		c, err := lightning.SetupLndClient(f.Config())
 		if err != nil {
 			return err
